@@ -66,7 +66,14 @@ func (c *clientWriter) Write(b []byte) (int, error) {
 
 type flushingClientWriter struct{ *clientWriter }
 
-func (f flushingClientWriter) Flush() { f.flushes++; f.calls = append(f.calls, "Flush") }
+// Flush mirrors net/http: flushing before any status was written commits the headers with an implicit 200.
+func (f flushingClientWriter) Flush() {
+	f.flushes++
+	f.calls = append(f.calls, "Flush")
+	if !f.wroteStart {
+		f.wroteStart, f.status, f.sent = true, 200, f.hdr.Clone()
+	}
+}
 
 type c14Step int
 
@@ -215,8 +222,10 @@ func init() {
 			}
 			router := routersBy[variant]
 			// intended response: the handler against the client writer directly
+			// (in strict mode "the status and body the handler wrote" are its WriteHeader/Write calls: a Flush writes neither, and
+			// nothing may be committed to the client before the response has been validated, so Flush counts as a no-op there)
 			intended := &clientWriter{hdr: http.Header{}}
-			if flusher {
+			if flusher && !(strict && subject == "Validator.Middleware") {
 				c14RunHandler(steps, flushingClientWriter{intended})
 			} else {
 				c14RunHandler(steps, intended)
